@@ -71,7 +71,10 @@ def ural():
             sys.path.insert(0, REPO)
         for k in [k for k in sys.modules if k == "ural" or k.startswith("ural.")]:
             del sys.modules[k]
-        import ural as _u
+        try:
+            import ural as _u
+        except Exception as e:  # noqa
+            raise Infra("`import ural` from %s failed (%s: %s): the tree does not even import" % (REPO, type(e).__name__, e))
 
         here = os.path.realpath(os.path.dirname(_u.__file__))
         if not here.startswith(os.path.realpath(REPO)):
